@@ -40,6 +40,11 @@ def run(ctx):
         for ws in (["polish"] * k + ["Polish", "one"], ["Polish"] * k + ["one", "polish"]):
             scen.append(dict(kind="wl", wl=dict(words=[wlfam.o(w) for w in ws], nolist=0, len=3, cap=rng.choice(["random", "one"]), sep="char", sepChar=[]),
                              maxTrials=0, failRateOne=0, mode="paths", paths=0, maxLeaves=0, tag="repeated-word-with-twin", reps=12))
+    # the empty word is a word that title-casing does not change: no bonus, however capitalisable the others are
+    for ws in (["", "alpha", "bravo", "charlie"], ["alpha", "", "Alpha", "bravo"], ["", "é"]):
+        for cap in ("random", "one", "all"):
+            scen.append(dict(kind="wl", wl=dict(words=[wlfam.o(w) for w in ws], nolist=0, len=4, cap=cap, sep="char", sepChar=wlfam.o("-")), maxTrials=0, failRateOne=0,
+                             mode="paths", paths=0, maxLeaves=0, tag="empty-word", reps=20))
     # long recipes: the capitalisation bonus of `random' is Length bits also beyond 63 words, `one' log2(Length)
     for L in (31, 32, 33, 63, 64, 65, 100, 128, 1000):
         for cap in ("random", "one", "all"):
